@@ -233,8 +233,16 @@ def run_case(res, case):
 
                 return wrapper
 
+            def _posonly(lead, a, /, x, b):
+                return lead * L_ag(a, x, b, scale=scale)
+
+            def _kwonly_tail(a, x, b, *, shift=0.0):
+                return L_ag(a, x, b, scale=scale) + shift
+
             _m = _Model()
             for label, fun_, args_, kw_ in (
+                ("positional_only_before_named", _posonly, (1.0, a0, x0, b0), {}),
+                ("keyword_only_after_named", _kwonly_tail, (a0, x0, b0), {"shift": 0.5}),
                 ("bound_method", _m.loss, (a0, x0, b0), {}),
                 ("class_method", _Model.closs, (a0, x0, b0), {}),
                 ("static_method", _m.sloss, (a0, x0, b0), {}),
@@ -305,6 +313,26 @@ def run_case(res, case):
             if not close(ga, gexp):
                 return viol("wrong_value", "grad_and_aux grad deviates", "grad_and_aux")
             ops_checked.append("grad_and_aux")
+            # one call of an operator = ONE evaluation of the user's function: extra arguments that are consumed
+            # by being used (an iterator of mini-batches), counters and random streams inside the function
+            calls = []
+
+            def stateful(a, x, batches, b):
+                m = next(batches)
+                calls.append(m)
+                return L_ag(a, x, b, scale=scale) * m, {"batch": m, "calls": float(len(calls))}
+
+            for opn, run in (("grad_and_aux", lambda it: grad_and_aux(stateful, 1)(a0, x0, it, b0)),
+                             ("value_and_grad", lambda it: (lambda vg: (vg[1], {"batch": calls[-1], "calls": len(calls)}))(value_and_grad(lambda a, x, bt, b: stateful(a, x, bt, b)[0], 1)(a0, x0, it, b0))),
+                             ("grad", lambda it: (grad(lambda a, x, bt, b: stateful(a, x, bt, b)[0], 1)(a0, x0, it, b0), {"batch": calls[-1], "calls": len(calls)}))):
+                del calls[:]
+                it = iter([2.0, 3.0, 5.0])
+                g_, aux_ = run(it)
+                if len(calls) != 1 or aux_["batch"] != 2.0 or aux_["calls"] != 1 or next(it) != 3.0:
+                    return viol("evaluated_more_than_once", "%s evaluated the function %d times (batches consumed %s, aux %r)" % (opn, len(calls), calls, aux_), opn + ":single_evaluation")
+                if not close(g_, 2.0 * gexp):
+                    return viol("wrong_value", "%s on a function with a consumable extra argument deviates" % opn, opn + ":single_evaluation")
+            ops_checked.append("single_evaluation")
             # primal / auxiliary values stay differentiable by an enclosing operator
             j_aux = jacobian(lambda x: grad_and_aux(lambda a, xx, b: (L_ag(a, xx, b, scale=scale), f_ag(a, xx, b, scale=scale) * 1.0), 1)(a0, x, b0)[1])(x0)
             if onp.shape(j_aux) != out_shape + in_shape or not close(j_aux, Jt):
